@@ -50,6 +50,18 @@ def run(ctx):
                     a[key]['stamp_tz'] = rng.choice(['UTC', 'UTC', 'Etc/GMT-3'])      # zone-aware stamps in UTC / a fixed offset
             if sp['grid'].get('tz') and (a.get('start') or a.get('end')) and a['kind'] not in ('OrderBook', 'StructuredAsset', 'ScaledAsset') and rng.random() < 0.5:
                 a['window_tz'] = rng.choice(['UTC', 'UTC', 'Etc/GMT-3'])
+    # daily take periods given as a date index with frequency 'D' in the zone of the grid, across a clock change
+    daily = gen.gen_many(ctx.seed, n // 4, dict(CFG, freqs=['d'], tzs=['CET'], p_dst=1.0, T=(4, 8), p_coarse=0.0, p_periodic=0.0, p_unaligned_end=0.0, p_window=0.0,
+                                                kinds={'Contract': 3, 'SimpleContract': 1}, n_assets=(1, 2)), 'c11day_')
+    for sp in daily:
+        pts_ = [pd.Timestamp(sp['grid']['start']) + pd.Timedelta(days=k_) for k_ in range(sp['grid']['T'] + 1)]
+        for a in sp['assets']:
+            if a['kind'] == 'Contract':
+                a.pop('min_take', None)
+                a['max_take'] = {'start': [gen.fmt(t) for t in pts_[:-1]], 'end': [gen.fmt(t) for t in pts_[1:]],
+                                 'values': [10.0 + k_ for k_ in range(len(pts_) - 1)], 'dates_as': 'date_range_D'}
+        sp['opts']['grid2'] = None
+    specs += daily
     # plants and CHP units from the generator: unit commitment parameters, ramp profiles (lists / numpy arrays), time-varying capacity,
     # a CHP declared without heat node
     plants = gen.gen_many_plants(ctx.seed, n // 3, dict(CFG, freqs=['h', '2h'], units=['h'], tzs=[None], T=(4, 8), p_profile=0.5, p_unaligned_end=0.0), 'c11p_')
